@@ -10,6 +10,16 @@ CLAIMED = {
  'C02': dict(text='Proof (Coq): chain rule for every real expression tree: reporting.sensitivity is the partial derivative (Coquelicot is_derive) and u_component is u times it, incl. shared inputs, independent/dependent inputs, plain-number operands; sparse merge = linear combination for all overlap patterns; derivative table re-proved against formulas regenerated from lib.py on every run. atan2 for x<=0, ** for non-positive base and function.implicit: correspondence/oracle only (partial).',
              note='Coq kernel, Reals/Coquelicot axioms, translator, correspondence harness; rounding not bounded by proof.',
              technique='Coq proof (Coquelicot derivatives, induction on trees, sorted-merge lemma) + translator + bit-exact correspondence', ref='6 C02'),
+
+ 'C04': dict(text='Proof (Coq): the triangular variance loop and the covariance loop of lib.py equal the LPU double sums for vectors of any length (symmetric r, unit diagonal), covariance symmetric, cov(y,y)=variance(y), get_correlation returns what set_correlation stored in either order; the zero-after-nonzero case is refuted with a witness (known finding). |corr|<=1 under PSD and the complex 2x2 matrix: correspondence/oracle only (partial).',
+             note='Coq kernel, Reals axioms, correspondence harness (math.fsum modelled exactly); rounding not bounded by proof.',
+             technique='Coq proof (list induction on the variance/covariance loops) + bit-exact correspondence', ref='6 C04'),
+ 'C06': dict(text='Proof (Coq), for every number instance incl. binary64: result() keeps value and independent/dependent components and adds one intermediate component; every expression tree and every variance/covariance/component report evaluates identically on states that differ only in which objects were declared intermediate (congruence). Chain rule through intermediates, complex/array result(): correspondence + two-run differential oracle (partial).',
+             note='Coq kernel (no axioms: closed under the global context), correspondence harness.',
+             technique='Coq proof (congruence of the evaluator under same-core relation) + bit-exact correspondence', ref='6 C06'),
+ 'C10': dict(text='Proof (Coq), for every number instance: every operation of the session state machine (succeeding or raising) and hence every history leaves every existing number unchanged except its uncertainty cache; reads are idempotent; variance = covariance(y,y). Full history independence is refuted with a witness (stale cache after a later set_correlation: known finding); the restricted claim is validated by a history-pair oracle and correspondence.',
+             note='Coq kernel, Reals axioms only for the refutation witness, correspondence harness.',
+             technique='Coq proof (case analysis over all operations + induction over histories) + bit-exact correspondence', ref='6 C10'),
 }
 NA_REASON = 'machinery for this property is not built yet in this revision (planned: see DESIGN.md section 6); not claimed until its check exists'
 m = {
